@@ -79,6 +79,7 @@ type Conn struct {
 	WriteSizes    []int
 	written       int64
 	cut           bool  // a short write / write error was injected
+	stallOver     bool  // the scripted write stall has ended (its deadline passed once)
 	CutOffset     int64 // stream offset at which the cut happened
 	BytesAfterCut int64 // bytes the conn accepted after it had returned a short write
 	WritesAfterCut int
@@ -172,7 +173,7 @@ func (c *Conn) Write(p []byte) (int, error) {
 			c.BytesAfterCut += int64(len(p))
 			c.WritesAfterCut++
 		}
-		if c.faults.StallWritesAt >= 0 && start+int64(len(p)) > c.faults.StallWritesAt {
+		if c.faults.StallWritesAt >= 0 && !c.stallOver && start+int64(len(p)) > c.faults.StallWritesAt {
 			// accept the part before the stall point, then block until deadline / close
 			acc := int(c.faults.StallWritesAt - start)
 			if acc < 0 {
@@ -195,6 +196,9 @@ func (c *Conn) Write(p []byte) (int, error) {
 						c.cut = true
 						c.CutOffset = c.written
 					}
+					// the peer's window opens again afterwards: whatever the driver writes now is accepted
+					// (and counted as bytes after a short write)
+					c.stallOver = true
 					c.mu.Unlock()
 					return acc, ErrTimeout
 				}
